@@ -597,6 +597,12 @@ func (r *refEval) compare(op string, a, b rval) (rval, error) {
 				}
 			}
 		default:
+			if _, isNil := a.(rnil); isNil {
+				return nil, &rerr{"other", "comparison with nil is outside the reference language"}
+			}
+			if _, isNil := b.(rnil); isNil {
+				return nil, &rerr{"other", "comparison with nil is outside the reference language"}
+			}
 			return nil, &rerr{"type", "cannot compare"}
 		}
 	}
@@ -966,6 +972,8 @@ func (r *refEval) applyPrim(name string, args []rval) (rval, error) {
 			return r.applyValue(args[0], c.elems)
 		case *rlist:
 			return r.applyValue(args[0], c.elems)
+		case rnil:
+			return r.applyValue(args[0], nil) // nil is the empty list
 		}
 		return nil, &rerr{"type", "apply"}
 	case "force":
